@@ -40,11 +40,11 @@ func rulesC15(c *Ctx) {
 	scheme := c.FnObj(pO, "", "checkURLScheme")
 
 	// validatedArg: some call of `check` on expression printed as arg dominates vertex v with its error tested.
-	checkedBefore := func(f *Func, check *types.Func, arg string, v int) bool {
+	checkedBefore := func(f *Func, check *types.Func, arg func(ast.Expr) bool, v int) bool {
 		g := f.Graph()
 		for _, cv := range g.callVertices(check) {
 			for _, call := range f.CallsIn(g.Node(cv), check, false) {
-				if exprStr(call.Args[0]) != arg || !g.Dominates(cv, v) {
+				if !arg(call.Args[0]) || !g.Dominates(cv, v) {
 					continue
 				}
 				ev := errVarOfCall(f, g.Node(cv))
@@ -64,7 +64,8 @@ func rulesC15(c *Ctx) {
 				for _, call := range f.CallsIn(f.Body, getJSON, false) {
 					n++
 					g := f.Graph()
-					ok := checkedBefore(f, httpsOrLb, exprStr(call.Args[2]), g.VertexOf(call))
+					urlObj := f.ObjOf(call.Args[2])
+					ok := urlObj != nil && checkedBefore(f, httpsOrLb, func(e ast.Expr) bool { return f.ObjOf(e) == urlObj }, g.VertexOf(call))
 					root := f.Root().Name()
 					c.Check(ok && (root == "GetProtectedResourceMetadata" || root == "GetAuthServerMeta"), "getJSON:"+f.Name(), f, call, "the fetch of %s is dominated by a successful checkHTTPSOrLoopback of the same URL", exprStr(call.Args[2]))
 				}
@@ -81,14 +82,14 @@ func rulesC15(c *Ctx) {
 			guards := pg.GuardsAt(rv)
 			okRes := hasAtom(guards, func(a Atom) bool {
 				x, y, op, ok := binaryCmp(a.E)
-				return ok && op == token.NEQ && !a.Val && exprStr(x) == "prm.Resource" && prm.ObjOf(y) == types.Object(prm.Param("resourceURL"))
+				return ok && op == token.NEQ && !a.Val && prm.FieldPath(x) == "ProtectedResourceMetadata.Resource" && len(prm.NonRecvParams()) >= 3 && prm.ObjOf(y) == types.Object(prm.NonRecvParams()[2])
 			})
 			c.Check(okRes, "PRM:resource-matches#"+itoa(i), prm, r, "protected-resource metadata is returned only if its resource equals the requested resource URL (guards: %s)", atomsString(guards))
 			// both URL checks in a loop over authorization_servers that dominates the return
 			okLoop := false
 			inspectNoLit(prm.Body, func(n ast.Node) {
 				rs, ok := n.(*ast.RangeStmt)
-				if !ok || exprStr(rs.X) != "prm.AuthorizationServers" || !pg.Dominates(pg.VertexOf(rs.X), rv) {
+				if !ok || prm.FieldPath(rs.X) != "ProtectedResourceMetadata.AuthorizationServers" || !pg.Dominates(pg.VertexOf(rs.X), rv) {
 					return
 				}
 				has := map[*types.Func]bool{}
@@ -125,14 +126,15 @@ func rulesC15(c *Ctx) {
 			guards := ag.GuardsAt(rv)
 			iss := hasAtom(guards, func(a Atom) bool {
 				ce, ok := a.E.(*ast.CallExpr)
-				return ok && a.Val && asmF.Callee(ce) != nil && asmF.Callee(ce).Name() == "IssuersEqual" && exprStr(ce.Args[0]) == "asm.Issuer" && asmF.ObjOf(ce.Args[1]) == types.Object(asmF.Param("issuer"))
+				return ok && a.Val && asmF.Callee(ce) != nil && asmF.Callee(ce).Name() == "IssuersEqual" && asmF.FieldPath(ce.Args[0]) == "AuthServerMeta.Issuer" && len(asmF.NonRecvParams()) >= 3 && asmF.ObjOf(ce.Args[1]) == types.Object(asmF.NonRecvParams()[2])
 			})
 			pkce := hasAtom(guards, func(a Atom) bool {
 				x, y, op, ok := binaryCmp(a.E)
 				z, isZ := asmF.ConstInt(y)
-				return ok && op == token.EQL && !a.Val && strings.Contains(exprStr(x), "CodeChallengeMethodsSupported") && isZ && z == 0
+				return ok && op == token.EQL && !a.Val && strings.Contains(asmF.canonLen(x), "AuthServerMeta.CodeChallengeMethodsSupported") && isZ && z == 0
 			})
-			urls := checkedBefore(asmF, c.FnObj(pO, "", "validateAuthServerMetaURLs"), "asm", rv)
+			docVar := asmF.ObjOf(r.Results[0])
+			urls := docVar != nil && checkedBefore(asmF, c.FnObj(pO, "", "validateAuthServerMetaURLs"), func(e ast.Expr) bool { return asmF.ObjOf(e) == docVar }, rv)
 			c.Check(iss, "ASM:issuer-matches#"+itoa(i), asmF, r, "metadata is returned only if its issuer equals the issuer asked for (guards: %s)", atomsString(guards))
 			c.Check(pkce, "ASM:pkce-required#"+itoa(i), asmF, r, "metadata is returned only if PKCE methods are advertised")
 			c.Check(urls, "ASM:urls-validated#"+itoa(i), asmF, r, "metadata is returned only after validateAuthServerMetaURLs succeeded")
@@ -147,8 +149,16 @@ func rulesC15(c *Ctx) {
 				if !a.Val {
 					return false
 				}
-				s := exprStr(a.E)
-				return strings.Contains(s, "400 <= ") && strings.Contains(s, "< 500")
+				// 400 <= code && code < 500 on the status code of the HTTP error
+				b, isB := a.E.(*ast.BinaryExpr)
+				if !isB || b.Op != token.LAND {
+					return false
+				}
+				lo, _, op1, ok1 := binaryCmp(b.X)
+				_, hi, op2, ok2 := binaryCmp(b.Y)
+				l, isL := asmF.ConstInt(lo)
+				h, isH := asmF.ConstInt(hi)
+				return ok1 && ok2 && op1 == token.LEQ && op2 == token.LSS && isL && isH && l == 400 && h == 500
 			})
 			c.Check(ok4, "ASM:no-metadata-only-for-4xx#"+itoa(i), asmF, r, "'no metadata' (nil, nil) is reported only for a 4xx answer (guards: %s)", atomsString(guards))
 		}
@@ -225,7 +235,7 @@ func rulesC15(c *Ctx) {
 			if extraLoopField != "" {
 				okLoop := false
 				inspectNoLit(vf.Body, func(n ast.Node) {
-					if rs, ok := n.(*ast.RangeStmt); ok && strings.HasSuffix(exprStr(rs.X), "."+extraLoopField) && len(vf.CallsIn(rs.Body, scheme, false)) > 0 {
+					if rs, ok := n.(*ast.RangeStmt); ok && strings.HasSuffix(vf.FieldPath(rs.X), "."+extraLoopField) && len(vf.CallsIn(rs.Body, scheme, false)) > 0 {
 						okLoop = true
 					}
 				})
@@ -270,7 +280,7 @@ func rulesC15(c *Ctx) {
 		vf := c.Fn(pO, "", "validateAuthServerMetaURLs")
 		nl := 0
 		inspectNoLit(vf.Body, func(n ast.Node) {
-			if rs, ok := n.(*ast.RangeStmt); ok && exprStr(rs.X) == "urls" {
+			if rs, ok := n.(*ast.RangeStmt); ok && isTableVar(vf, rs.X) {
 				for _, chk := range []*types.Func{scheme, httpsOrLb} {
 					if len(vf.CallsIn(rs.Body, chk, false)) > 0 {
 						nl++
@@ -299,11 +309,12 @@ func rulesC15(c *Ctx) {
 		c.Check(okG && okVE, "Authorize:exchange-after-checks", az, g.Node(ev[0]), "exchangeAuthorizationCode is dominated by getAuthorizationCode and by validateIssuerResponse returning nil (guards: %s)", atomsString(guards))
 		// validateIssuerResponse gets the response's iss, the metadata's issuer and support flag
 		vcall := az.CallsIn(g.Node(vv[0]), vir, false)[0]
-		c.Check(exprStr(vcall.Args[0]) == "authRes.Iss" && exprStr(vcall.Args[1]) == "asm.Issuer" && strings.HasSuffix(exprStr(vcall.Args[2]), "AuthorizationResponseIssParameterSupported"), "Authorize:issuer-check-arguments", az, vcall, "the issuer check compares the response's iss with the metadata issuer under the advertised support flag")
+		c.Check(strings.HasSuffix(az.FieldPath(vcall.Args[0]), ".Iss") && az.ObjOf(ast.Unparen(vcall.Args[0]).(*ast.SelectorExpr).X) == az.VarFromCall(getCode, 0) && az.FieldPath(vcall.Args[1]) == "AuthServerMeta.Issuer" && az.FieldPath(vcall.Args[2]) == "AuthServerMeta.AuthorizationResponseIssParameterSupported", "Authorize:issuer-check-arguments", az, vcall, "the issuer check compares the response's iss with the metadata issuer under the advertised support flag")
 		// decision table of validateIssuerResponse
 		vf := c.Fn(pA, "", "validateIssuerResponse")
 		vg := vf.Graph()
-		iss, exp, sup := vf.Param("iss"), vf.Param("expectedIssuer"), vf.Param("issParameterSupported")
+		c.Need(len(vf.Params()) == 3, "validateIssuerResponse(iss, expectedIssuer, supported)")
+		iss, exp, sup := vf.Params()[0], vf.Params()[1], vf.Params()[2]
 		type sc struct {
 			name              string
 			sup, empty, equal tri
@@ -364,7 +375,7 @@ func rulesC15(c *Ctx) {
 			guards := gcg.GuardsAt(gcg.VertexOf(r))
 			c.Check(hasAtom(guards, func(a Atom) bool {
 				x, y, op, ok := binaryCmp(a.E)
-				return ok && op == token.NEQ && !a.Val && strings.HasSuffix(exprStr(x), ".State") && gc.ObjOf(y) == stateVar
+				return ok && op == token.NEQ && !a.Val && strings.HasSuffix(gc.FieldPath(x), ".State") && gc.ObjOf(y) == stateVar
 			}), "getAuthorizationCode:state-verified#"+itoa(i), gc, r, "a code is handed on only if the returned state equals the generated one (guards: %s)", atomsString(guards))
 		}
 		// tokenSource writers
@@ -401,18 +412,30 @@ func rulesC15(c *Ctx) {
 		gam := c.FnObj(pA, "", "GetAuthServerMetadata")
 		okFB := false
 		for _, call := range az.CallsIn(az.Body, gam, false) {
-			src := exprStr(call.Args[1])
-			for _, w := range Writes(az.Body, false) {
-				if exprStr(w.LHS) == "authServerURL" && w.RHS != nil && exprStr(w.RHS) == src {
-					okFB = true
+			src := canonExpr(az, call.Args[1])
+			// the fallback literal's endpoints are built from a local that equals the probed server URL
+			inspectNoLit(az.Body, func(n ast.Node) {
+				kv, ok := n.(*ast.KeyValueExpr)
+				if !ok || exprStr(kv.Key) != "TokenEndpoint" {
+					return
 				}
-			}
+				b, isB := ast.Unparen(kv.Value).(*ast.BinaryExpr)
+				if !isB {
+					return
+				}
+				base := az.ObjOf(b.X)
+				for _, w := range Writes(az.Body, false) {
+					if base != nil && az.ObjOf(w.LHS) == base && w.RHS != nil && canonExpr(az, w.RHS) == src {
+						okFB = true
+					}
+				}
+			})
 		}
 		c.Check(okFB, "Authorize:fallback-uses-validated-server", az, nil, "the 2025-03-26 fallback derives its endpoints from the same prm.AuthorizationServers[0] (validated https/loopback) that was probed for metadata")
 		fbGuard := false
 		inspectNoLit(az.Body, func(n ast.Node) {
 			if kv, ok := n.(*ast.KeyValueExpr); ok && exprStr(kv.Key) == "TokenEndpoint" {
-				fbGuard = hasAtom(g.GuardsAt(g.VertexOf(kv)), func(a Atom) bool { return AtomSaysNil(a, true, func(e ast.Expr) bool { return exprStr(e) == "asm" }) })
+				fbGuard = hasAtom(g.GuardsAt(g.VertexOf(kv)), func(a Atom) bool { return AtomSaysNil(a, true, func(e ast.Expr) bool { return az.ObjOf(e) != nil && az.ObjOf(e) == az.VarFromCall(gam, 0) }) })
 			}
 		})
 		c.Check(fbGuard, "Authorize:fallback-only-without-metadata", az, nil, "the fallback is taken only when GetAuthServerMetadata returned (nil, nil)")
@@ -447,7 +470,7 @@ func rulesC15(c *Ctx) {
 				}
 				in, neg := stripNot(b.Y)
 				ce, isC := in.(*ast.CallExpr)
-				return neg && isC && hr.Callee(ce) != nil && hr.Callee(ce).Name() == "IssuersEqual" && strings.HasSuffix(exprStr(ce.Args[0]), ".Issuer") && exprStr(ce.Args[1]) == "asm.Issuer" && func() bool {
+				return neg && isC && hr.Callee(ce) != nil && hr.Callee(ce).Name() == "IssuersEqual" && strings.HasSuffix(hr.FieldPath(ce.Args[0]), ".Issuer") && hr.FieldPath(ce.Args[1]) == "AuthServerMeta.Issuer" && func() bool {
 					x, y, op, isCmp := binaryCmp(b.X) // exactly one further conjunct: <configured issuer> != ""
 					str, isC := hr.ConstString(y)
 					return isCmp && op == token.NEQ && isC && str == "" && exprStr(x) == exprStr(ce.Args[0])
@@ -458,7 +481,7 @@ func rulesC15(c *Ctx) {
 		c.Pin("pre-registered returns", n, 1)
 		rc := c.FnObj(pO, "", "RegisterClient")
 		for _, call := range hr.CallsIn(hr.Body, rc, false) {
-			c.Check(exprStr(call.Args[1]) == "asm.RegistrationEndpoint", "handleRegistration:dcr-endpoint", hr, call, "RegisterClient is sent to asm.RegistrationEndpoint (validated https/loopback by validateAuthServerMetaURLs or derived from the validated server URL)")
+			c.Check(hr.FieldPath(call.Args[1]) == "AuthServerMeta.RegistrationEndpoint", "handleRegistration:dcr-endpoint", hr, call, "RegisterClient is sent to asm.RegistrationEndpoint (validated https/loopback by validateAuthServerMetaURLs or derived from the validated server URL)")
 		}
 	})
 }
@@ -471,4 +494,26 @@ func fieldIndex(n *types.Named, f *types.Var) int {
 		}
 	}
 	return 0
+}
+
+// canonLen renders len(x.F) as "len(Type.F)".
+func (f *Func) canonLen(e ast.Expr) string {
+	if ce, ok := ast.Unparen(e).(*ast.CallExpr); ok && f.BuiltinName(ce) == "len" && len(ce.Args) == 1 {
+		return "len(" + f.FieldPath(ce.Args[0]) + ")"
+	}
+	return f.FieldPath(e)
+}
+
+// isTableVar: e denotes a local variable holding a slice of anonymous {name, value} structs.
+func isTableVar(f *Func, e ast.Expr) bool {
+	v, ok := f.ObjOf(e).(*types.Var)
+	if !ok || v.IsField() {
+		return false
+	}
+	sl, ok := v.Type().Underlying().(*types.Slice)
+	if !ok {
+		return false
+	}
+	st, ok := sl.Elem().Underlying().(*types.Struct)
+	return ok && st.NumFields() == 2
 }
